@@ -560,7 +560,7 @@ func (box *Ballotbox) clean() {
 
 			key := vr.stagepoint().String()
 			if vr.isSuffrageConfirm() {
-				key = "sign-" + key
+				key = "sf-" + key
 			}
 
 			_ = box.vrs.RemoveValue(key)
